@@ -311,10 +311,13 @@ func newEpisode(impl string) *episode {
 // goroutine snapshot, then collects the readers that returned.
 func (e *episode) quiesce() []result {
 	deadline := time.Now().Add(60 * time.Second)
-	var hist []string
+	var hist []map[int64]string
+	var st map[int64]string
 	for spin := 0; ; spin++ {
-		st := goStates()
-		hist = append(hist, fmt.Sprint(st))
+		st = goStates()
+		if len(hist) < 64 {
+			hist = append(hist, st)
+		}
 		ok := true
 		if !e.stopped {
 			if s, present := st[e.runGoid]; !present || !parked(s) {
@@ -353,7 +356,6 @@ func (e *episode) quiesce() []result {
 		break
 	}
 	// every reader that left the snapshot must have delivered its result
-	st := goStates()
 	for _, r := range e.readers {
 		if !r.done {
 			if _, present := st[r.goid]; !present {
@@ -991,6 +993,9 @@ func (dr *driver) genEpisode(rng *hx.Rng, impl string) {
 
 func main() {
 	a := hx.ParseArgs()
+	if runtime.GOMAXPROCS(0) > 4 {
+		runtime.GOMAXPROCS(4) // real parallelism between readers, writer and Run loop; cheap stop-the-world snapshots
+	}
 	run := hx.NewRun(a.Dir)
 	defer run.Close()
 	dr := &driver{run: run}
